@@ -35,6 +35,9 @@ Unjudged(r) ==
 \* ---- which face is row j (exclude / ignore / gdf split), or group of rows of face f
 RowFace(r, j) == IF r.pe = "exclude" THEN Kept(Mesh(r), r.k, r.sgn)[j] ELSE j - 1
 NExpected(r)  == IF r.pe = "exclude" THEN Len(Kept(Mesh(r), r.k, r.sgn)) ELSE NF(Mesh(r))
+\* the same with the kept list computed once (kp)
+RowFaceK(r, kp, j) == IF r.pe = "exclude" THEN kp[j] ELSE j - 1
+NExpectedK(r, kp)  == IF r.pe = "exclude" THEN Len(kp) ELSE NF(Mesh(r))
 
 \* all pieces exported for face f under 'split'
 PiecesOf(r, f) ==
@@ -69,7 +72,8 @@ Clauses(r) ==
       sg == r.sgn
       geo == r.kind \in {"gdf", "poly", "line"}
       split == r.pe = "split"
-      rowsOK == Len(r.rows) = NExpected(r)
+      kp == Kept(m, k, sg)
+      rowsOK == Len(r.rows) = NExpectedK(r, kp)
       ownOK == IF r.kind = "gdf" THEN Len(r.rows) = NF(m) ELSE OwnerShapeOK(r)
   IN
   [ AmIndices      |-> r.kind = "am" =>
@@ -81,7 +85,7 @@ Clauses(r) ==
     RowCount       |-> (geo /\ ~split) => rowsOK,
     OnePiecePerRow |-> (geo /\ ~split) => \A j \in 1..Len(r.rows) : Len(r.rows[j]) = 1,
     RingIsFace     |-> (geo /\ ~split /\ rowsOK) =>
-                          \A j \in 1..Len(r.rows) : Len(r.rows[j]) >= 1 /\ RingIsFace(m, r.rows[j][1], RowFace(r, j)),
+                          \A j \in 1..Len(r.rows) : Len(r.rows[j]) >= 1 /\ RingIsFace(m, r.rows[j][1], RowFaceK(r, kp, j)),
     \* every exported line is a closed ring (closed[j]: first and last coordinates of line j coincide)
     LineClosed     |-> r.kind = "line" => /\ \A j \in 1..Len(r.rows) : \A q \in 1..Len(r.rows[j]) : ClosedRing(r.rows[j][q])
                                           /\ Has(r, "closed") => (Len(r.closed) = Len(r.rows) /\ \A j \in 1..Len(r.closed) : r.closed[j]),
@@ -96,11 +100,11 @@ Clauses(r) ==
                           /\ \A j \in 1..Len(r.rows) : Len(r.rows[j]) = 1
                           /\ Feasible(r, 1, 0),
     \* the returned index table of a PolyCollection ('exclude': the kept faces)
-    OwnerTable     |-> (r.kind = "poly" /\ r.pe = "exclude" /\ Has(r, "owner")) => r.owner = Kept(m, k, sg),
+    OwnerTable     |-> (r.kind = "poly" /\ r.pe = "exclude" /\ Has(r, "owner")) => r.owner = kp,
     \* data
     DataLength     |-> (geo /\ Has(r, "data")) => Len(r.data) = Len(r.rows),
     DataFollowsFaces |-> (geo /\ Has(r, "data") /\ Len(r.data) = Len(r.rows)) =>
-                          IF ~split THEN (rowsOK => \A j \in 1..Len(r.rows) : r.data[j] = Tracer(RowFace(r, j)))
+                          IF ~split THEN (rowsOK => \A j \in 1..Len(r.rows) : r.data[j] = Tracer(RowFaceK(r, kp, j)))
                           ELSE IF r.kind = "gdf" THEN (Len(r.rows) = NF(m) => \A j \in 1..Len(r.rows) : r.data[j] = Tracer(j - 1))
                           ELSE (Has(r, "owner") /\ OwnerShapeOK(r)) => \A j \in 1..Len(r.rows) : r.data[j] = Tracer(r.owner[j])
   ]
